@@ -76,6 +76,19 @@ def vocabulary():
     add("call-try-local-4", P(g.call(I("rr"), [L(4)])), [])
     add("freeze-expr", P(g.freeze(g.binop("+", I("yy"), L(1)))), [])
     add("freeze-builtin-shadow", g.decl("rr", g.freeze(lam1(g.seq([g.decl("len", L(7)), g.binop("+", I("len"), I("aa"))])))), ["rr"])
+    # switch inside frozen code: each arm is a scope of its own; `literally e` is code in a pattern
+    add("frozen-switch", g.decl("rw", g.freeze(lam1(g.switch(g.lst([I("aa"), I("yy")]), [
+        (g.lv_tuple([g.lv_lit(0), g.lv_id("ww")]), g.binop("+", I("ww"), I("yy"))),
+        (g.lv_tuple([g.lv_lity(I("yy")), g.LV_IGNORE]), L(100)),
+        (g.lv_tuple([g.lv_id("mm"), g.LV_IGNORE]), g.binop("+", I("mm"), I("yy")))])))), ["rw"])
+    add("call-rw-0", P(g.call(I("rw"), [L(0)])), [])
+    add("call-rw-1", P(g.call(I("rw"), [L(1)])), [])
+    add("call-rw-7", P(g.call(I("rw"), [L(7)])), [])
+    # `literally yy` runs before the pattern binds its own yy: it is a free occurrence of the outer yy
+    add("frozen-switch-self", g.decl("rl", g.freeze(lam1(g.switch(g.lst([I("aa"), L(1)]), [
+        (g.lv_tuple([g.lv_id("yy"), g.lv_lity(I("yy"))]), g.binop("+", I("yy"), L(100))),
+        (g.LV_IGNORE, L(0))])))), ["rl"])
+    add("call-rl", P(g.call(I("rl"), [L(1)])), [])
     return V, 2
 
 
